@@ -134,7 +134,9 @@ pub enum Step {
     /// precomputed multiscalar: statics st with static scalars ss (may be fewer than st), dynamic
     /// scalars ds and points dh. entry 0 vartime_multiscalar_mul (static only), 1 vartime_mixed,
     /// 2 optional_mixed (None allowed in dh)
-    Pre { g: u8, dst: H, entry: u8, st: Vec<H>, ss: Vec<Sc>, ds: Vec<Sc>, dh: Vec<Option<H>>, d: u8 },
+    /// it: how the scalar / point streams are delivered: 0 slices, 1 iterators without an exact size hint (filter),
+    /// 2 a slice chained with such an iterator
+    Pre { g: u8, dst: H, entry: u8, st: Vec<H>, ss: Vec<Sc>, ds: Vec<Sc>, dh: Vec<Option<H>>, d: u8, #[serde(default)] it: u8 },
     /// compress handle a and compare with the model's canonical encoding (plus representation invariants)
     Cmp { g: u8, a: H },
     Eq { g: u8, a: H, b: H },
@@ -185,7 +187,9 @@ pub enum Step {
     /// mode 0 verify, 1 Verifier::verify, 2 verify_strict, 3 verify_prehashed, 4 verify_prehashed_strict,
     /// 5 hazmat raw_verify::<Sha512>, 6 raw_verify_prehashed, 7 raw_verify::<ChosenDigest> (chosen = digest
     /// output), 8 Context verify_digest, 9 SigningKey::verify wrappers (needs signer s), 10 DigestVerifier
-    Ver { mode: u8, key: B, m: B, sig: B, ctx: Option<B>, ch: Vec<u16>, chosen: Option<B>, d: u8 },
+    /// ksrc: how the verifier obtained the key: 0 from the wire bytes, 1 `VerifyingKey::default()` (key bytes ignored),
+    /// 2 decoded point converted with `From<EdwardsPoint>` (canonical re-encoding)
+    Ver { mode: u8, key: B, m: B, sig: B, ctx: Option<B>, ch: Vec<u16>, chosen: Option<B>, d: u8, #[serde(default)] ksrc: u8 },
     /// append to batch queue q
     BQ { q: u8, m: B, sig: B, key: B },
     /// verify_batch on queue q. var 0 as is, 1 twice (repetition), 2 permuted by arg, 3 entry arg[0]
